@@ -72,6 +72,9 @@ def run_case(case):
             aac = 1 if st == 'moved' else (0 if st == 'cannot' else rng.randrange(2))
             nv = C.name_value(identity_number=100 + 10 * si + ci, function=20 + ci, arbitrary_address_capable=aac)
             pref = fresh(130, 240) if st == 'wait_veto' else fresh(2, 120)
+            if st in ('normal', 'bypass') and not ({0, 1} & used) and rng.random() < 0.15:
+                pref = 0                      # address 0 is a legal (and falsy) address
+                used.update((0, 1))
             ca = W.ca(node, pref, name_value=nv, bypass=(st == 'bypass'))
             rec = dict(ca=ca, node=node, want=st, pref=pref, held=None, name=nv, calls=[], label='S%d.ca%d' % (si, ci))
             # one or two request subscribers; a third one is registered and removed again before any request arrives
